@@ -91,7 +91,7 @@ def run(eng, rep, tier):
               "with a silent epsilon move", sc, site=site_of(prog, fc, fc.node))
     for ev in bridge:
         from .flow import _path_to
-        loops = [a for a in _path_to(fc.node, ev.node) if isinstance(a, ast.For)]
+        loops = [a for a in _path_to(ev.func.node, ev.node) if isinstance(a, ast.For)]     # in the helper, if extracted
         zipped = [l for l in loops if isinstance(l.iter, ast.Call) and getattr(l.iter.func, "id", "") == "zip"]
         prod = [l for l in loops if isinstance(l.iter, ast.Call) and ast.unparse(l.iter.func).endswith("product")]
         if zipped:
